@@ -137,7 +137,17 @@ def run(chk):
             calls.append((circ, assumptions))
             return solver, v
 
-        r = run_func(repo, "model_count", {pm[0]: c, pm[1]: asm, "construct_solver": fake_construct})
+        # (how the count is obtained today: one solver, blocking clauses over the startpoints.  A model_count that works another way
+        # - per component, through a helper - is decided by C08.B.value; if the body needs more of the circuit than this fake offers,
+        # or never reaches the scripted solver, these shape obligations abstain)
+        try:
+            r = run_func(repo, "model_count", {pm[0]: c, pm[1]: asm, "construct_solver": fake_construct})
+        except AnalysisError as e_:
+            chk.note(f"C08.B shape obligations abstain: model_count needs more than the scripted solver on the fake circuit ({str(e_)[:100]}); C08.B.value decides")
+            continue
+        if len(calls) != 1:
+            chk.note(f"C08.B shape obligations abstain: model_count built {len(calls)} solvers on the fake circuit (one expected); C08.B.value decides")
+            continue
         want_block = [sorted(-m[ids[n] - 1] for n in sp) for m in models]
         got_block = [sorted(cl) for cl in solver.added]
         tag = "with-assumptions" if asm else "plain"
@@ -163,6 +173,9 @@ def run(chk):
         "only-inputs": _build({"a": I_, "b": I_}, outputs=["a"]),
         "constants-only-cone": _build({"a": I_, "z": ("0", []), "w": ("1", []), "g": ("or", ["z", "w"]), "o": ("nand", ["g", "a"])}, outputs=["o"]),
         "parity3": _build({"a": I_, "b": I_, "c": I_, "p": ("xnor", ["a", "b", "c"]), "q": ("nor", ["p", "a"])}, outputs=["q"]),
+        "disconnected-parts-one-without-inputs": _build({"a": I_, "b": I_, "g": ("and", ["a", "b"]), "z": ("0", []), "y": ("buf", ["z"]), "w": ("1", []), "v": ("not", ["w"])}, outputs=["g", "y", "v"]),
+        "disconnected-odd-inverter-ring": _build({"a": I_, "g": ("not", ["a"]), "n1": ("not", ["n3"]), "n2": ("not", ["n1"]), "n3": ("not", ["n2"])}, outputs=["g", "n1"]),
+        "two-independent-cones": _build({"a": I_, "b": I_, "c": I_, "d": I_, "p": ("xor", ["a", "b"]), "q": ("nor", ["c", "d"])}, outputs=["p", "q"]),
         "nor-latch": _build({"s": I_, "r": I_, "q": ("nor", ["r", "qn"]), "qn": ("nor", ["s", "q"])}, outputs=["q"]),
         "oscillator-under-enable": _build({"en": I_, "g": ("nand", ["en", "g"]), "o": ("buf", ["g"])}, outputs=["o"]),
     }
@@ -189,6 +202,40 @@ def run(chk):
             chk.ob("C08.B.value", f"model_count::{mname}::{'positive' if polarity else 'negative'}-branching", prob is None, file=FILE, func="model_count", line=fm.node.lineno,
                    fact=prob or {"assumption_sets": len(asms)}, expect="number of startpoint valuations that extend to a consistent valuation satisfying the assumptions")
     chk.floor("model_count pipeline evaluations", n_mc, 200)
+
+    # ---- H: query, edit the same object through its API, query again - on the repository's OWN Circuit class -----------------
+    # (a memo inside circuit.py's queries - transitive_fanin, startpoints ... - that an edit does not invalidate shows here)
+    from ..pkgenv import build_full
+
+    PFS = pipeline_package(repo, False, full_stack=True)
+    base_spec = {"a": I_, "b": I_, "d": I_, "e": I_, "m": ("or", ["a", "b"]), "n": ("and", ["m", "d"]), "k": ("xor", ["n", "a"]), "o": ("not", ["k"])}
+    edits = {
+        "connect a new driver into the queried node": (lambda c_: c_.connect("e", "n"), {**base_spec, "n": ("and", ["m", "d", "e"])}),
+        "disconnect a driver of the queried node": (lambda c_: c_.disconnect("d", "n"), {**base_spec, "n": ("and", ["m"])}),
+        "add a gate in front (add with fanout)": (lambda c_: c_.add("z", "nor", fanin=["e", "b"], fanout=["n"]), {**base_spec, "z": ("nor", ["e", "b"]), "n": ("and", ["m", "d", "z"])}),
+        "remove an input of the cone": (lambda c_: c_.remove("b"), {k_: (t_, [f_ for f_ in fi_ if f_ != "b"]) for k_, (t_, fi_) in base_spec.items() if k_ != "b"}),
+    }
+    for ename, (edit, after_spec) in edits.items():
+        prob = None
+        try:
+            c_long = build_full(PFS, base_spec, outputs=["o"])
+            for node in ("n", "o", "m"):
+                PFS.call("props.py", "signal_probability", c_long, node, False)
+                PFS.call(FILE, "model_count", c_long, {node: True})
+            edit(c_long)
+            c_fresh = build_full(pipeline_package(repo, False, full_stack=True), after_spec, outputs=["o"])
+            PF2 = pipeline_package(repo, False, full_stack=True)
+            c_fresh = build_full(PF2, after_spec, outputs=["o"])
+            for node in ("n", "o", "m"):
+                got = (PFS.call("props.py", "signal_probability", c_long, node, False), PFS.call(FILE, "model_count", c_long, {node: True}))
+                want = (PF2.call("props.py", "signal_probability", c_fresh, node, False), PF2.call(FILE, "model_count", c_fresh, {node: True}))
+                if [x[:2] for x in got] != [x[:2] for x in want]:
+                    prob = {"node": node, "after_the_edit": str(got)[:120], "fresh_circuit_with_the_same_structure": str(want)[:120]}
+                    break
+        except ModelRaise as e_:
+            prob = {"problem": "the edit sequence cannot be carried out", "error": str(e_)[:120]}
+        chk.ob("C08.H.query-edit-query", f"{ename}", prob is None, file="props.py", func="signal_probability / model_count", fact=prob or {"nodes": 3},
+               expect="after an edit through the API, the counts and probabilities are those of a fresh circuit with the same structure")
 
     # ---- P: signal_probability ----------------------------------------
     fp = repo.func("props.py", "signal_probability")
